@@ -791,6 +791,29 @@ def validate_traces(ctx, traces, tag, expect_reject=False):
     return False, tid, l
 
 
+def all_rejected(falsified):
+    """Negative controls of the trace binding in one TLC run -> index of a falsified history that TLC accepts to its
+    end (None when every one of them is rejected somewhere)."""
+    tmp = scratch_dir("c07c-")
+    try:
+        path = os.path.join(tmp, "traces.json")
+        with open(path, "w", encoding="utf-8") as f:
+            json.dump(falsified, f)
+        r = run_tlc("TunnelEndpointTrace.tla", "TunnelEndpointTrace_ctl.cfg", env={"TRACE_FILE": path}, coverage=False)
+    finally:
+        shutil.rmtree(tmp, ignore_errors=True)
+    if r.ok:
+        return None
+    if r.violated != "NoneAccepted":
+        raise MachineryError("TunnelEndpointTrace (controls): unexpected TLC verdict %s" % r.violated)
+    last = r.error_trace[-1][1] if r.error_trace else {}
+    tid = last.get("tid")
+    if not isinstance(tid, int):
+        m = re.search(r"/\\ tid = (\d+)", r.output)
+        tid = int(m.group(1)) if m else 1
+    return tid - 1
+
+
 def judge_divergent(ctx, rp):
     """Walks that left the implementation layer: violation only if the abstract layer rejects what was observed."""
     def sig_of(d):
@@ -989,54 +1012,18 @@ def run(tier, seed, replay=None):
     def tlc_bg(cfg, **k):
         return pool.submit(run_tlc, "TunnelEndpoint.tla", cfg, **k)
 
-    rp = Replayer(ctx, lib, loop)
-    exhaustive = {}          # tag -> pending exhaustive TLC run; collected after everything else was done
-    if only_t:
-        exhaustive["exhaustive"] = tlc_bg("TunnelEndpoint_d4.cfg")
-        start_controls()
-        ntr, tlen, controls = 40, 200, ("raw", "closing", "unload-sender", "unload-replacement")
-    elif tier == "quick":
-        exhaustive["exhaustive"] = tlc_bg("TunnelEndpoint_d7.cfg")
-        g4 = dumped_graph(ctx, "TunnelEndpoint_d4.cfg", "d4")      # the replays wait for this one only
-        exhaustive["exhaustive_lifecycle"] = tlc_bg("TunnelEndpoint_lc5.cfg")
-        glc = pool.submit(dumped_graph, ctx, "TunnelEndpoint_lc3.cfg", "lc3", True)
-        sim = pool.submit(simulated_behaviours, ctx.seed, 250, 50)
-        start_controls()
-        # every path of 3 events, then the seeded part of the transition cover of 4 events (same dumped graph)
-        replay_graph(ctx, rp, g4, "d4", 3, 10000)
-        phase("replay_paths_and_cover")
-        replay_lifecycle(ctx, rp, glc.result(), "lc3", 3, every=False)
-        phase("replay_lifecycle")
-        replay_simulated(ctx, rp, sim.result(), 50)
-        phase("replay_simulated")
-        ntr, tlen = 40, 200
-        controls = ("raw", "closing", "unload-sender", "unload-replacement")
-    else:
-        exhaustive["exhaustive"] = tlc_bg("TunnelEndpoint_d8.cfg", timeout=7200)
-        exhaustive["exhaustive_lifecycle"] = tlc_bg("TunnelEndpoint_lc6.cfg", timeout=7200)
-        sim = pool.submit(simulated_behaviours, ctx.seed, 5000, 80)
-        start_controls()
-        replay_graph(ctx, rp, "TunnelEndpoint_d4.cfg", "d4", 4, 0)          # every path of 4 events
-        phase("replay_paths")
-        replay_graph(ctx, rp, "TunnelEndpoint_d5.cfg", "d5", 0, None)       # complete transition cover, 5 events
-        phase("replay_cover")
-        replay_lifecycle(ctx, rp, "TunnelEndpoint_lc3t.cfg", "lc3", 3, every=True)
-        phase("replay_lifecycle")
-        replay_simulated(ctx, rp, sim.result(), 80)
-        phase("replay_simulated")
-        ntr, tlen = 300, 200
-        controls = ("raw", "wrong-circuit", "closing", "still-queued", "unload-sender", "unload-replacement")
-    ctx.evaluated(rp.nops)
-    ctx.traces(rp.nwalks)
-    ctx.note("replay_actions_executed", rp.seen_actions)
-    if rp.divergent:
-        judge_divergent(ctx, rp)
-        phase("judge_divergent_walks")
-
-    if not ctx.violations:
+    def record_histories(ntr, tlen, controls):
+        """Binding T.  The histories are recorded now; TLC judges them (and, in a second run, their falsified copies =
+        trace-level negative controls) beside whatever comes next."""
         stats = dict.fromkeys(SITUATIONS + ["tunnel_emissions", "longest_queue"], 0)
         traces = [random_history(lib, loop, rng, tlen, stats) for _ in range(ntr)]
-        ok, tid, l = validate_traces(ctx, traces, "trace")
+        bads = [next((c for c in (corrupt(t, how) for t in traces) if c), None) for how in controls]
+        fut_val = pool.submit(validate_traces, ctx, traces, "trace")
+        fut_ctl = pool.submit(all_rejected, bads) if all(bads) else None
+        return traces, stats, controls, bads, fut_val, fut_ctl
+
+    def judge_histories(traces, stats, controls, bads, fut_val, fut_ctl):
+        ok, tid, l = fut_val.result()
         ctx.note("recorded_histories", {"count": len(traces), "events": sum(len(t["events"]) for t in traces),
                                         "sends_by_situation": stats})
         if not ok:
@@ -1067,16 +1054,62 @@ def run(tier, seed, replay=None):
                      "wrong-circuit": "history reporting tunnel data over an unknown circuit is rejected",
                      "closing": "history reporting tunnel data over a closing circuit is rejected",
                      "still-queued": "history reporting a packet both sent and still queued is rejected"}
-            bads = []
-            for how in controls:
-                bad = next((c for c in (corrupt(t, how) for t in traces) if c), None)
-                if bad is None:
-                    raise MachineryError("C07: no recorded history to corrupt for control %r" % how)
-                bads.append(bad)
-            verdicts = list(pool.map(lambda b: validate_traces(ctx, [b], None, True)[0], bads))
-            for how, v in zip(controls, verdicts):
-                ctx.control(texts[how], v)
-    phase("recorded_histories")
+            if fut_ctl is None:
+                raise MachineryError("C07: no recorded history to corrupt for control %r"
+                                     % controls[[b is None for b in bads].index(True)])
+            accepted = fut_ctl.result()
+            for n, how in enumerate(controls):
+                ctx.control(texts[how], n != accepted)
+
+    rp = Replayer(ctx, lib, loop)
+    exhaustive = {}          # tag -> pending exhaustive TLC run; collected after everything else was done
+    if only_t:
+        exhaustive["exhaustive"] = tlc_bg("TunnelEndpoint_d4.cfg")
+        start_controls()
+        hist = record_histories(40, 200, ("raw", "closing", "unload-sender", "unload-replacement"))
+        phase("record_histories")
+    elif tier == "quick":
+        exhaustive["exhaustive"] = tlc_bg("TunnelEndpoint_d7.cfg")
+        g4 = pool.submit(dumped_graph, ctx, "TunnelEndpoint_d4.cfg", "d4")
+        hist = record_histories(40, 200, ("raw", "closing", "unload-sender", "unload-replacement"))
+        phase("record_histories")
+        g4 = g4.result()                                           # the replays wait for this one only
+        exhaustive["exhaustive_lifecycle"] = tlc_bg("TunnelEndpoint_lc5.cfg")
+        glc = pool.submit(dumped_graph, ctx, "TunnelEndpoint_lc3.cfg", "lc3", True)
+        sim = pool.submit(simulated_behaviours, ctx.seed, 250, 50)
+        start_controls()
+        # every path of 3 events, then the seeded part of the transition cover of 4 events (same dumped graph)
+        replay_graph(ctx, rp, g4, "d4", 3, 10000)
+        phase("replay_paths_and_cover")
+        replay_lifecycle(ctx, rp, glc.result(), "lc3", 3, every=False)
+        phase("replay_lifecycle")
+        replay_simulated(ctx, rp, sim.result(), 50)
+        phase("replay_simulated")
+    else:
+        exhaustive["exhaustive"] = tlc_bg("TunnelEndpoint_d8.cfg", timeout=7200)
+        exhaustive["exhaustive_lifecycle"] = tlc_bg("TunnelEndpoint_lc6.cfg", timeout=7200)
+        sim = pool.submit(simulated_behaviours, ctx.seed, 5000, 80)
+        start_controls()
+        hist = record_histories(300, 200, ("raw", "wrong-circuit", "closing", "still-queued", "unload-sender",
+                                           "unload-replacement"))
+        phase("record_histories")
+        replay_graph(ctx, rp, "TunnelEndpoint_d4.cfg", "d4", 4, 0)          # every path of 4 events
+        phase("replay_paths")
+        replay_graph(ctx, rp, "TunnelEndpoint_d5.cfg", "d5", 0, None)       # complete transition cover, 5 events
+        phase("replay_cover")
+        replay_lifecycle(ctx, rp, "TunnelEndpoint_lc3t.cfg", "lc3", 3, every=True)
+        phase("replay_lifecycle")
+        replay_simulated(ctx, rp, sim.result(), 80)
+        phase("replay_simulated")
+    ctx.evaluated(rp.nops)
+    ctx.traces(rp.nwalks)
+    ctx.note("replay_actions_executed", rp.seen_actions)
+    if rp.divergent:
+        judge_divergent(ctx, rp)
+        phase("judge_divergent_walks")
+
+    judge_histories(*hist)
+    phase("judge_histories")
     # the model-checking runs that went on beside all of the above
     for text, fut, pred in ctl_futs:
         ctx.control(text, pred(fut.result()))
